@@ -29,16 +29,18 @@ SPEC = {
              'v+-0.01, range ends), dates on range and month ends. Non-trivial = (file, txn) where some row matches on the CSV side; distinct by digest'),
     'exhaustive': {'quick': False, 'thorough': False},
     'required_counters': ['files_migrated', 'content_path_checks', 'migrate_command_path_checks', 'load_csv_as_engine_checks', 'rows_matching'],
-    'assumptions': ['descriptions use characters with a simple case mapping; inline (?-i:...) flags are not generated (the CSV path upper-cases the '
-                    'description before an IGNORECASE search, the migrated path does not)',
+    'assumptions': ['inline (?-i:...) flags are not generated (the CSV path upper-cases the description before an IGNORECASE search, the migrated '
+                    'path does not); descriptions with letters whose upper-case form is longer (ß, ligatures) ARE generated: recorded finding',
                     'merchant, category and tag texts have no surrounding blanks and tags contain no comma'],
 }
 
-LITS = ['NETFLIX', 'UBER', 'EATS', 'STAR', 'BUCKS', 'AMZN', 'MKTP', 'COSTCO', 'WHOLE', 'FOODS', 'GAS', 'CAF', 'SQ']
+LITS = ['NETFLIX', 'UBER', 'EATS', 'STAR', 'BUCKS', 'AMZN', 'MKTP', 'COSTCO', 'WHOLE', 'FOODS', 'GAS', 'CAF', 'SQ', 'STRASSE', 'FINE']
 DESCS = ['NETFLIX.COM Uber eats', 'star-BUCKS  *7', "O'Reilly Café AMZN Mktp", 'UBER EATS 42 SQ *COSTCO', 'Netflix', 'uber   eats', 'COSTCO GAS 100',
          'AMZN Mktp US*7 NETFLIX', 'SQ *STAR bucks REF:77', 'UBER TRIP 7', 'WHOLE FOODS MARKET #12 WA', 'STARBUCKS STORE 42', 'costco whole foods',
          'say "GAS" now', 'back\\slash COSTCO', 'UBERUBER', 'A+B COSTCO (x)', 'GASGAS 7', 'UBEREATS', 'Plain Unknown Vendor 99', 'EATS\tUBER',
-         'COSTCO7', 'COSTCO x', 'NETFLIX-X', 'STAR 9', 'GAS Z']
+         'COSTCO7', 'COSTCO x', 'NETFLIX-X', 'STAR 9', 'GAS Z',
+         # letters whose upper-case form is longer than the letter (the CSV path matches against description.upper())
+         'Hauptstra\u00dfe 5 UBER', 'HAUPTSTRASSE 7 GAS', '\ufb01ne FOODS market', 'Stra\u00dfe']
 
 
 def gen_pattern(rnd):
@@ -126,8 +128,18 @@ def obs_engine(eng, txn):
     return {'triple': (res.merchant, res.category, res.subcategory) if res.matched else None, 'tags': set(res.tags)}
 
 
-def classify(crules, txn, a, b, ref):
+def classify(crules, txn, a, b, ref, rerun=None):
     """Mechanism key for a CSV-vs-migrated difference (narrow: input features AND failure shape)."""
+    d = txn.get('description') or ''
+    if len(d.upper()) != len(d) and rerun is not None:
+        # recorded finding: the CSV path searches description.upper() ('ß' -> 'SS'), regex() in a .rules file searches the description as written.
+        # Confirmed only when the migrated rules, given the upper-cased description, answer exactly as the CSV rules did.
+        try:
+            b2 = rerun(dict(txn, description=d.upper()))
+            if (b2['triple'], b2['tags']) == (a['triple'], a['tags']):
+                return 'description-with-multi-character-uppercase', True
+        except Exception:
+            pass
     migrated_right = (b['triple'], b['tags']) == (ref['triple'], ref['tags'])
     blame = [crules[i].pattern for i in ref['matching'] if expression_like(crules[i].pattern)]
     blame += [r.pattern for r in crules if expression_like(r.pattern) and a['triple'] and r.merchant == a['triple'][0]]
@@ -219,7 +231,7 @@ def judge(rec, crules, txns, tmp, rnd):
                 continue
             rec.count('content_path_checks' if name == 'content' else 'load_csv_as_engine_checks')
             if (a['triple'], a['tags']) != (b['triple'], b['tags']):
-                key, bare = classify(crules, txn, a, b, ref)
+                key, bare = classify(crules, txn, a, b, ref, rerun=lambda t2, eng=eng: obs_engine(eng, t2))
                 rec.violation(key if bare else key + ':' + name,
                               f'{name}: CSV rules give {a["triple"]} {sorted(a["tags"])}, migrated rules give {b["triple"]} {sorted(b["tags"])} for '
                               f'{txn["description"]!r} amount={txn["amount"]} date={txn.get("date")} (CSV reference semantics: {ref["triple"]} {sorted(ref["tags"])})', case)
@@ -228,7 +240,7 @@ def judge(rec, crules, txns, tmp, rnd):
                 b = O.production_result(mig_rules, [], txn, {})
                 rec.count('migrate_command_path_checks')
                 if (a['triple'], a['tags']) != (b['triple'], b['tags']):
-                    key, bare = classify(crules, txn, a, b, ref)
+                    key, bare = classify(crules, txn, a, b, ref, rerun=lambda t2: O.production_result(mig_rules, [], t2, {}))
                     rec.violation(key if bare else key + ':migrate-command',
                                   f'_migrate_csv_to_rules: CSV {a["triple"]} {sorted(a["tags"])} vs migrated {b["triple"]} {sorted(b["tags"])} for {txn["description"]!r} '
                                   f'amount={txn["amount"]}', case)
@@ -261,6 +273,12 @@ def relative_probe(rec):
         shutil.rmtree(tmp, ignore_errors=True)
 
 
+def sharp_s_probe(rec, tmp):
+    """Witness of the recorded finding 'description-with-multi-character-uppercase'."""
+    cr = [R.CsvRule('STRASSE', [], 'Street Shop', 'Shopping', 'Misc', [])]
+    judge(rec, cr, [{'description': 'Hauptstra\u00dfe 5', 'amount': 5.0, 'field': None, 'source': 'Amex', 'location': None, 'date': date(2025, 1, 15)}], tmp, None)
+
+
 def run(rec, shard, nshards, t):
     core.import_tally()
     rnd = core.rng_for('C14', shard)
@@ -273,6 +291,7 @@ def run(rec, shard, nshards, t):
                 rec.sample({'csv': R.render_csv(cr)})
         if shard == 0:
             relative_probe(rec)
+            sharp_s_probe(rec, tmp)
     finally:
         shutil.rmtree(tmp, ignore_errors=True)
 
@@ -282,6 +301,13 @@ def replay(rec, case):
     rnd = core.rng_for('C14', 'replay')
     if case['kind'] == 'relative':
         relative_probe(rec)
+        return
+    if case['kind'] == 'sharp-s':
+        tmp = tempfile.mkdtemp(prefix='vt-c14-')
+        try:
+            sharp_s_probe(rec, tmp)
+        finally:
+            shutil.rmtree(tmp, ignore_errors=True)
         return
     tmp = tempfile.mkdtemp(prefix='vt-c14-')
     try:
